@@ -153,6 +153,11 @@ def c01(ctx):
             out.append((cid, 'memory outside the slice (or the slice itself) was written'))
         if 'from_bytes-disagrees-with-validate' in r:
             out.append((cid, 'from_bytes disagrees with validate'))
+        # a reference handed out by from_bytes that covers more bytes than the slice it was given (size_of_val of the
+        # mapped value) is memory outside the slice: creating it is already undefined behaviour
+        if head == 'ok' and kv.get('sov', '').isdigit() and cid in ctx.meta and 'len' in ctx.meta[cid] \
+                and int(kv['sov']) > ctx.meta[cid]['len']:
+            out.append((cid, 'from_bytes returned a reference covering %s bytes of a %d byte slice' % (kv['sov'], ctx.meta[cid]['len'])))
     return out, n
 
 
